@@ -162,7 +162,7 @@ def handle (j : Json) : Except String Json := do
     let moltype ← (← j.getObjVal? "moltype").getStr?
     match writeGenParams argv cites moltype m with
     | .ok lines => pure (okJson [("lines", Json.arr (lines.map lineToJson).toArray), ("wf", wfB m)])
-    | .error e => pure (Json.mkObj [("ok", false), ("err", Json.str e), ("wf", wfB m)])
+    | .error e => pure (Json.mkObj [("ok", false), ("err", Json.str e), ("wf", wfB m), ("why", toJson (wfWhy m))])
   | "tail" =>
     let m ← molOfJson (← j.getObjVal? "mol")
     let argv ← (← j.getObjVal? "argv").getStr?
@@ -179,9 +179,9 @@ def handle (j : Json) : Except String Json := do
       if s.startsWith "+" then .ok (s.drop 1).toString else .error "citation_formatter raises"
     match genParamsTail [] "out" argv moltype m citations cmapRaw fmt with
     | .ok fs => match FS.get fs "out" with
-      | some lines => pure (okJson [("lines", Json.arr (lines.map lineToJson).toArray), ("wf", wfB m)])
+      | some lines => pure (okJson [("lines", Json.arr (lines.map lineToJson).toArray), ("wf", wfB m), ("why", toJson (wfWhy m))])
       | none => pure (errJson "not written")
-    | .error e => pure (Json.mkObj [("ok", false), ("err", Json.str e), ("wf", wfB m)])
+    | .error e => pure (Json.mkObj [("ok", false), ("err", Json.str e), ("wf", wfB m), ("why", toJson (wfWhy m))])
   | "read" =>
     let lines ← (← (← j.getObjVal? "lines").getArr?).toList.mapM lineOfJson
     let via ← (← j.getObjVal? "via").getStr?
@@ -192,7 +192,7 @@ def handle (j : Json) : Except String Json := do
     let m ← molOfJson (← j.getObjVal? "mol")
     let b ← blockOfJson (← j.getObjVal? "block")
     let names := canonSectionNames m
-    pure (okJson [("same", sameMolecule m b), ("wf", wfB m),
+    pure (okJson [("same", sameMolecule m b), ("wf", wfB m), ("z_ordered", zOrdered m), ("why", toJson (wfWhy m)),
       ("atoms_same", b.atoms == canonAtoms m),
       ("sections", Json.arr (names.map (fun s => Json.arr #[Json.str s,
           matchUpTo (sameIxn s) (plainIxns m s) (b.ixnsOf s),
@@ -210,8 +210,23 @@ def handle (j : Json) : Except String Json := do
   | "iso" =>
     let b ← blockOfJson (← j.getObjVal? "block")
     let G ← reqOfJson (← j.getObjVal? "req")
-    pure (okJson [("iso", isoByResidB (resGraphOf b) G), ("graph", graphToJson (resGraphOf b)),
-                  ("hyps", isoHyps b G)])
+    -- hypotheses of C11_resgraph_iso evaluated on the molecule that was BUILT (if given), else on the block
+    let hb ← match j.getObjVal? "built" with
+      | .ok Json.null => pure b
+      | .ok v => (molOfJson v).map (canonBlock "built")
+      | .error _ => pure b
+    -- the residue graph the REAL reader recovered: the specification is evaluated on it
+    let R ← match j.getObjVal? "recovered" with
+      | .ok Json.null => pure (resGraphOf b)
+      | .ok v => do
+        let nodes ← (← (← v.getObjVal? "nodes").getArr?).toList.mapM fun n => do
+          pure (⟨← (← n.getArrVal? 0).getNat?, ← (← n.getArrVal? 1).getNat?, ← (← n.getArrVal? 2).getStr?⟩ : RGNode)
+        let edges ← (← (← v.getObjVal? "edges").getArr?).toList.mapM fun e => do
+          pure ((← (← e.getArrVal? 0).getNat?), (← (← e.getArrVal? 1).getNat?))
+        pure ({ nodes := nodes, edges := edges } : ResGraph)
+      | .error _ => pure (resGraphOf b)
+    pure (okJson [("iso", isoByResidB R G), ("iso_model", isoByResidB (resGraphOf b) G),
+                  ("graph", graphToJson (resGraphOf b)), ("hyps", isoHyps hb G)])
   | "table" =>
     pure (okJson [("split", Json.arr (splitTable.map (fun p => Json.arr #[Json.str p.1, splitToJson p.2])).toArray),
                   ("top_sections", toJson topSections)])
